@@ -131,6 +131,10 @@ structure Inv (s : State) : Prop where
   prevOk : PrevOk s
   placed : ∀ n, (s.box n).alloc = true → (s.box n).pub = true → (s.box n).taken = false →
     n ∈ s.glist (s.node n).fut ∨ (∃ b, s.lock (s.node n).fut = some b ∧ n ∈ (s.pc b).pend)
+  freshHolder : ∀ n, (s.box n).alloc = true → (s.box n).pub = false → ∃ h, (s.pc (.fr h)).fresh = some n
+  scanL0 : ∀ a f hd tail cur took pend skip l0, s.pc a = .aScan f hd tail cur took pend skip l0 →
+    ∀ x, x ∈ l0 ↔ (x ∈ took ∨ x ∈ skip ∨ x ∈ pend)
+  unlockL0 : ∀ a f hd took skip l0, s.pc a = .aUnlock f hd took skip l0 → ∀ x, x ∈ l0 ↔ (x ∈ took ∨ x ∈ skip)
   oScanOk : ∀ a f cur l0 seen, s.pc a = .oScan f cur l0 seen → s.hnext f = some cur ∧ l0 = seen ++ s.glist f
   oNoneOk : ∀ a f l0 seen, s.pc a = .oUnlock f none l0 seen → s.hnext f = none ∧ s.glist f = [] ∧ seen = l0
   aUnlockOk : ∀ a f hd took skip l0, s.pc a = .aUnlock f hd took skip l0 →
